@@ -117,11 +117,15 @@ def build_network(cfg, placement, extras=None):
     V = cfg["V"]
     net = Network()
     G = net.G
+    off = cfg.get("label_offset", 0)  # labels above 256 are not shared small-int objects (identity vs equality)
+    if off:
+        placement = [[int(str(v + off)) for v in ms] for ms in placement]
+    nodes = [int(str(v + off)) for v in range(V)]
     if cfg.get("node_order") == "desc":
-        G.add_nodes_from(reversed(range(V)))  # vertices need not have been inserted in ascending order
+        G.add_nodes_from(reversed(nodes))  # vertices need not have been inserted in ascending order
     else:
-        G.add_nodes_from(range(V))
-    jd = {v: [0] * len(used) for v in range(V)}
+        G.add_nodes_from(nodes)
+    jd = {v: [0] * len(used) for v in nodes}
     for j, (sh, ms) in enumerate(zip(shapes, placement)):
         es = shape_edges(sh, ms)
         ts = shape_topos(sh, len(es))
@@ -134,13 +138,13 @@ def build_network(cfg, placement, extras=None):
                 jd[v][used.index(ts[0])] += 1
         for (a, b), t in zip(es, ts):
             G.add_edge(a, b)
-            G.edges[a, b][NN.TOPOLOGY] = t
+            G.edges[a, b][NN.TOPOLOGY] = "".join(list(t))  # an equal string, not the object in the names list
             G.edges[a, b][NN.MOTIF_IDS] = j
-    for v in range(V):
+    for i, v in enumerate(nodes):
         if extras:
-            jd[v][0] += extras[v]
+            jd[v][0] += extras[i]
         if cfg.get("ann"):
-            jd[v] = list(cfg["ann"][v])
+            jd[v] = list(cfg["ann"][i])
         G.nodes[v][NN.JOINT_DEGREE] = tuple(jd[v])
     return net, used
 
